@@ -136,6 +136,8 @@ type Term struct {
 	LinAtoms []Atom
 	um       uint64
 	umOK     bool
+	ones     uint64
+	onesOK   bool
 }
 
 var idCtr uint64
@@ -496,6 +498,22 @@ func Ite(c, a, b *Term) *Term {
 	if a.Sort != b.Sort {
 		panic(fmt.Sprintf("ite sort mismatch %v %v", a.Sort, b.Sort))
 	}
+	if idx, ctab, ok := boolTable(c); ok && a.Sort.K == KBV && a.Sort.W <= 64 {
+		// ite over tables with the same index is a table
+		at, aok := tabOver(a, idx, len(ctab))
+		bt, bok := tabOver(b, idx, len(ctab))
+		if aok && bok {
+			nt := make([]uint64, len(ctab))
+			for i := range nt {
+				if ctab[i] != 0 {
+					nt[i] = at[i]
+				} else {
+					nt[i] = bt[i]
+				}
+			}
+			return tableRaw(nt, a.Sort.W, idx)
+		}
+	}
 	if a.Sort.K == KBool {
 		if a.IsTrue() && b.IsFalse() {
 			return c
@@ -567,6 +585,24 @@ func Eq(a, b *Term) *Term {
 		if a.Op == OZext && b.Op == OZext && a.Args[0].Sort == b.Args[0].Sort {
 			return Eq(a.Args[0], b.Args[0])
 		}
+		if a.Op == OTable && b.Op == OTable && a.Args[0].Sort == b.Args[0].Sort && len(a.Tab) == len(b.Tab) {
+			sameTab, inj := true, true
+			seen := map[uint64]bool{}
+			for i := range a.Tab {
+				if a.Tab[i] != b.Tab[i] {
+					sameTab = false
+					break
+				}
+				if seen[a.Tab[i]] {
+					inj = false
+					break
+				}
+				seen[a.Tab[i]] = true
+			}
+			if sameTab && inj {
+				return Eq(a.Args[0], b.Args[0])
+			}
+		}
 		if r := linEq(a, b); r != nil {
 			return r
 		}
@@ -607,6 +643,32 @@ func tableCmp(a *Term, pred func(uint64) bool) *Term {
 	return mk(OEq, Bool, t, BVC(1, 1))
 }
 
+// tabOver views t as a table over idx (constants, idx itself zero-extended, or a table on idx).
+func tabOver(t *Term, idx *Term, n int) ([]uint64, bool) {
+	if v, ok := t.ConstU(); ok {
+		out := make([]uint64, n)
+		for i := range out {
+			out[i] = v
+		}
+		return out, true
+	}
+	if t.Op == OTable && t.Args[0] == idx && len(t.Tab) == n {
+		return t.Tab, true
+	}
+	core := t
+	for core.Op == OZext {
+		core = core.Args[0]
+	}
+	if core == idx {
+		out := make([]uint64, n)
+		for i := range out {
+			out[i] = uint64(i)
+		}
+		return out, true
+	}
+	return nil, false
+}
+
 // Table builds a lookup of a constant table at idx. len(tab) must be >= the
 // number of values idx can take; entries beyond the table are an error by the caller.
 func Table(tab []uint64, outW int, idx *Term) *Term {
@@ -632,6 +694,11 @@ func Table(tab []uint64, outW int, idx *Term) *Term {
 	}
 	if idx.Op == OIte && idx.Args[1].IsConst() && idx.Args[2].IsConst() {
 		return Ite(idx.Args[0], Table(tab, outW, idx.Args[1]), Table(tab, outW, idx.Args[2]))
+	}
+	if idx.Sort.W <= 64 {
+		if k := bits.Len64(Ones(idx)); k < idx.Sort.W && k > 0 {
+			idx = Extract(idx, k-1, 0)
+		}
 	}
 	return tableRaw(tab, outW, idx)
 }
@@ -812,6 +879,9 @@ func BvBin(op Op, a, b *Term) *Term {
 			if op == OBvXor && a == b {
 				return BVC(w, 0)
 			}
+			if op == OBvOr && Ones(a)&Ones(b) == 0 {
+				return BvBin(OBvXor, a, b)
+			}
 		case OBvSub:
 			if oky && y == 0 {
 				return a
@@ -929,6 +999,60 @@ func cmpEval(op Op, w int, x, y uint64) bool {
 	panic("cmp")
 }
 
+
+// Ones returns a mask of the bits of a BV term (width <= 64) that may be 1.
+func Ones(t *Term) uint64 {
+	w := t.Sort.W
+	if w > 64 {
+		return ^uint64(0)
+	}
+	if t.Op == OConst {
+		return t.Val
+	}
+	if t.onesOK {
+		return t.ones
+	}
+	v := onesOf(t) & mask(w)
+	t.ones, t.onesOK = v, true
+	return v
+}
+
+func onesOf(t *Term) uint64 {
+	w := t.Sort.W
+	switch t.Op {
+	case OZext:
+		return Ones(t.Args[0])
+	case OConcat:
+		lw := t.Args[1].Sort.W
+		return Ones(t.Args[0])<<uint(lw) | Ones(t.Args[1])
+	case OExtract:
+		if t.Args[0].Sort.W <= 64 {
+			return Ones(t.Args[0]) >> uint(t.P2)
+		}
+	case OBvAnd:
+		return Ones(t.Args[0]) & Ones(t.Args[1])
+	case OBvOr, OBvXor:
+		return Ones(t.Args[0]) | Ones(t.Args[1])
+	case OIte:
+		return Ones(t.Args[1]) | Ones(t.Args[2])
+	case OTable:
+		var m uint64
+		for _, v := range t.Tab {
+			m |= v
+		}
+		return m
+	case OBvLshr:
+		if c, ok := t.Args[1].ConstU(); ok && c < 64 {
+			return Ones(t.Args[0]) >> c
+		}
+	case OBvURem:
+		if c, ok := t.Args[1].ConstU(); ok && c > 0 {
+			return mask(bits.Len64(c - 1))
+		}
+	}
+	return mask(w)
+}
+
 // UMax returns a cheap upper bound on the unsigned value of a BV term (<=64 bits).
 func UMax(t *Term) uint64 {
 	if t.Op == OConst {
@@ -941,6 +1065,11 @@ func UMax(t *Term) uint64 {
 		return t.um
 	}
 	v := umax(t)
+	if t.Sort.W <= 64 {
+		if o := Ones(t); o < v {
+			v = o
+		}
+	}
 	t.um, t.umOK = v, true
 	return v
 }
